@@ -11,8 +11,11 @@
  *   WKILL_COUNTER  counter file (8-byte little-endian counter at offset 0), serialised with lockf() + a process mutex
  *   WKILL_LOG      log file; one line per counted write; the fatal one ends with "(INJECTED)"
  *   WKILL_AT       N >= 1: kill at the N-th counted write; 0/unset: count only
- *   WKILL_PARTIAL  1: at write N first really write a PRNG-chosen strict prefix (0..len-1 bytes) of the data
+ *   WKILL_PARTIAL  1: at write N first really write a PRNG-chosen strict prefix of the data (uniform / within the first 256 bytes / sector-aligned)
  *   WKILL_SEED     PRNG seed for the prefix length
+ *   WKILL_DUMP     optional file: every counted write is appended as a record {n, wall time, offset, length, path tail, DATA}
+ *                  (in sequence order, under the counter lock), so that the exact file state after any prefix of the write
+ *                  sequence can be reconstructed offline
  * Side files: <counter>.pids (pids of all processes that loaded the library), <counter>.dead (created at the kill; a
  * process that is started with WKILL_AT>0 after that -- e.g. a kid revived by the SMP master -- exits at once).
  *
@@ -33,6 +36,7 @@
 #include <string.h>
 #include <sys/types.h>
 #include <sys/uio.h>
+#include <time.h>
 #include <unistd.h>
 
 #define MAXFD 65536
@@ -64,7 +68,8 @@ static const char *counter_path, *log_path;
 static uint64_t kill_at;
 static int partial;
 static uint64_t seed;
-static int counter_fd = -1, log_fd = -1;
+static int counter_fd = -1, log_fd = -1, dump_fd = -1;
+static const char *dump_path;
 static pid_t fds_pid;
 static pthread_mutex_t mu = PTHREAD_MUTEX_INITIALIZER;
 static int ready;
@@ -101,6 +106,7 @@ __attribute__((constructor)) static void wkill_init(void)
     const char *p = getenv("WKILL_PREFIX");
     counter_path = getenv("WKILL_COUNTER");
     log_path = getenv("WKILL_LOG");
+    dump_path = getenv("WKILL_DUMP");
     const char *at = getenv("WKILL_AT");
     kill_at = at ? strtoull(at, NULL, 10) : 0;
     partial = getenv("WKILL_PARTIAL") && atoi(getenv("WKILL_PARTIAL")) > 0;
@@ -164,6 +170,9 @@ static void open_side_files(void)
         return;
     counter_fd = real_open(counter_path, O_RDWR | O_CREAT, 0666);
     log_fd = log_path ? real_open(log_path, O_WRONLY | O_APPEND | O_CREAT, 0666) : -1;
+    dump_fd = (dump_path && *dump_path) ? real_open(dump_path, O_WRONLY | O_APPEND | O_CREAT, 0666) : -1;
+    if (dump_fd >= 0 && dump_fd < MAXFD)
+        is_cache_fd[dump_fd] = 0;
     fds_pid = getpid();
     /* keep them out of the way of the application's small descriptors and out of our own table */
     if (counter_fd >= 0 && counter_fd < MAXFD)
@@ -202,7 +211,34 @@ static void die_now(void)
 }
 
 /* Returns -1 when the write proceeds normally, else the number of bytes of the prefix to write before dying. */
-static long long account(int fd, size_t len, long long off, const char *kind)
+struct dump_head {
+    uint64_t magic, n;
+    double wall;
+    int64_t off;
+    uint64_t len;
+    char path[96];
+};
+
+static void dump_record(uint64_t n, int fd, long long off, const struct iovec *iov, int cnt, size_t len)
+{
+    struct dump_head h;
+    struct timespec ts;
+    memset(&h, 0, sizeof(h));
+    h.magic = 0x574b494c4c445031ULL; /* "WKILLDP1" */
+    h.n = n;
+    clock_gettime(CLOCK_REALTIME, &ts);
+    h.wall = (double)ts.tv_sec + ts.tv_nsec / 1e9;
+    h.off = off >= 0 ? off : (long long)lseek(fd, 0, SEEK_CUR); /* O_APPEND files: the log-structured swap.state; see reader */
+    h.len = len;
+    snprintf(h.path, sizeof(h.path), "%s", fd_path[fd]);
+    if (real_write(dump_fd, &h, sizeof(h)) < 0)
+        return;
+    for (int i = 0; i < cnt; i++)
+        if (iov[i].iov_len && real_write(dump_fd, iov[i].iov_base, iov[i].iov_len) < 0)
+            return;
+}
+
+static long long account(int fd, size_t len, long long off, const char *kind, const struct iovec *iov, int cnt)
 {
     long long verdict = -1;
     pthread_mutex_lock(&mu);
@@ -223,7 +259,17 @@ static long long account(int fd, size_t len, long long off, const char *kind)
         int fatal = kill_at && n == kill_at;
         long long pre = 0;
         if (fatal && partial && len > 0)
-            pre = (long long)(splitmix(seed ^ (n * 0x100000001b3ULL)) % len);
+        {
+            /* torn writes: a third uniform, a third within the first bytes of the buffer (record header written, its payload
+             * barely started), a third at a 512-byte sector boundary */
+            const uint64_t h = splitmix(seed ^ (n * 0x100000001b3ULL));
+            const uint64_t h2 = splitmix(h ^ 0x9e3779b97f4a7c15ULL);
+            switch (h % 3) {
+            case 0: pre = (long long)(h2 % len); break;
+            case 1: pre = (long long)(h2 % (len < 256 ? len : 256)); break;
+            default: pre = len > 512 ? (long long)((h2 % (len / 512)) * 512) : (long long)(h2 % len); break;
+            }
+        }
         if (log_fd >= 0) {
             char line[320];
             int l = snprintf(line, sizeof(line), "%llu pid=%d %s fd=%d len=%zu off=%lld path=%s%s", (unsigned long long)n, (int)getpid(), kind, fd, len, off,
@@ -233,6 +279,8 @@ static long long account(int fd, size_t len, long long off, const char *kind)
             if (real_write(log_fd, line, l) < 0) {
             }
         }
+        if (dump_fd >= 0)
+            dump_record(n, fd, off, iov, cnt, len);
         if (lockf(counter_fd, F_ULOCK, 0) != 0) {
         }
         if (fatal)
@@ -253,7 +301,8 @@ ssize_t write(int fd, const void *buf, size_t len)
 {
     resolve();
     if (counted(fd)) {
-        long long v = account(fd, len, -1, "write");
+        struct iovec one = {(void *)buf, len};
+        long long v = account(fd, len, -1, "write", &one, 1);
         if (v >= 0) {
             if (v > 0 && real_write(fd, buf, (size_t)v) < 0) {
             }
@@ -267,7 +316,8 @@ ssize_t pwrite(int fd, const void *buf, size_t len, off_t off)
 {
     resolve();
     if (counted(fd)) {
-        long long v = account(fd, len, (long long)off, "pwrite");
+        struct iovec one = {(void *)buf, len};
+        long long v = account(fd, len, (long long)off, "pwrite", &one, 1);
         if (v >= 0) {
             if (v > 0 && real_pwrite(fd, buf, (size_t)v, off) < 0) {
             }
@@ -281,7 +331,8 @@ ssize_t pwrite64(int fd, const void *buf, size_t len, off64_t off)
 {
     resolve();
     if (counted(fd)) {
-        long long v = account(fd, len, (long long)off, "pwrite64");
+        struct iovec one = {(void *)buf, len};
+        long long v = account(fd, len, (long long)off, "pwrite64", &one, 1);
         if (v >= 0) {
             if (v > 0 && real_pwrite64(fd, buf, (size_t)v, off) < 0) {
             }
@@ -316,7 +367,7 @@ ssize_t writev(int fd, const struct iovec *iov, int cnt)
 {
     resolve();
     if (counted(fd)) {
-        long long v = account(fd, iov_total(iov, cnt), -1, "writev");
+        long long v = account(fd, iov_total(iov, cnt), -1, "writev", iov, cnt);
         if (v >= 0) {
             write_iov_prefix(fd, iov, cnt, v, -1);
             die_now();
@@ -329,7 +380,7 @@ ssize_t pwritev(int fd, const struct iovec *iov, int cnt, off_t off)
 {
     resolve();
     if (counted(fd)) {
-        long long v = account(fd, iov_total(iov, cnt), (long long)off, "pwritev");
+        long long v = account(fd, iov_total(iov, cnt), (long long)off, "pwritev", iov, cnt);
         if (v >= 0) {
             write_iov_prefix(fd, iov, cnt, v, (long long)off);
             die_now();
